@@ -18,7 +18,7 @@ structure Inv (s : TS) : Prop where
   waits : ∀ k, (s.xs k).locked ≠ none → ∀ t, (s.tasks t).live = true → (s.tasks t).xfer = k → t ∈ (s.xs k).waitFor
   /-- after a call returned nothing is alive for the transfer -/
   quietDead : ∀ k, (s.xs k).quiet = true → ∀ t, (s.tasks t).live = true → (s.tasks t).xfer ≠ k
-  quietSt : ∀ k, (s.xs k).quiet = true → (s.xs k).removed = true ∨ (s.xs k).st = .aborted ∨ (s.xs k).st = .paused
+  quietSt : ∀ k, (s.xs k).quiet = true → (s.xs k).removed = true ∨ (s.xs k).st = .aborted ∨ (s.xs k).st = .paused ∨ (s.xs k).st = .failed
 
 theorem inv_init : Inv {} := by
   constructor <;> intros <;> simp_all [Task.live]
@@ -139,8 +139,9 @@ theorem not_quiet_of_spawnable {s : TS} (h : Inv s) {k : Nat}
     (hr : (s.xs k).removed = false) (hs : (s.xs k).st = .queued ∨ (s.xs k).st = .incomplete) : (s.xs k).quiet = false := by
   cases hq : (s.xs k).quiet
   · rfl
-  · rcases h.quietSt k hq with h1 | h1 | h1
+  · rcases h.quietSt k hq with h1 | h1 | h1 | h1
     · rw [hr] at h1; cases h1
+    · rcases hs with h2 | h2 <;> rw [h2] at h1 <;> cases h1
     · rcases hs with h2 | h2 <;> rw [h2] at h1 <;> cases h1
     · rcases hs with h2 | h2 <;> rw [h2] at h1 <;> cases h1
 
@@ -267,6 +268,9 @@ theorem inv_taskEnd {s : TS} (h : Inv s) (t : Nat) (o : Outcome) : Inv (step s (
       · refine inv_taskUpdate h t hl _ _ ?_ ?_
         · exact ⟨rfl, rfl⟩
         · split <;> exact ⟨rfl, rfl, rfl, rfl, rfl, rfl⟩
+      · refine inv_taskUpdate h t hl _ _ ?_ ?_
+        · exact ⟨rfl, rfl⟩
+        · split <;> exact ⟨rfl, rfl, rfl, rfl, rfl, rfl⟩
   · exact h
 
 theorem inv_done_generic {s : TS} (h : Inv s) (t : Nat) (tk' : Task) (hdead' : tk'.live = false) (x' : XT)
@@ -329,7 +333,7 @@ theorem inv_done_generic {s : TS} (h : Inv s) (t : Nat) (tk' : Task) (hdead' : t
   · intro k hq
     change (upd s.xs (s.tasks t).xfer x' k).quiet = true at hq
     show (upd s.xs (s.tasks t).xfer x' k).removed = true ∨ (upd s.xs (s.tasks t).xfer x' k).st = .aborted ∨
-      (upd s.xs (s.tasks t).xfer x' k).st = .paused
+      (upd s.xs (s.tasks t).xfer x' k).st = .paused ∨ (upd s.xs (s.tasks t).xfer x' k).st = .failed
     by_cases ek : k = (s.tasks t).xfer
     · subst ek; rw [upd_same] at hq ⊢; rw [hkeep.2.2.1] at hq; rw [hkeep.2.2.2.1, hkeep.2.2.2.2]; exact h.quietSt _ hq
     · rw [upd_other _ _ ek] at hq ⊢; exact h.quietSt k hq
@@ -412,14 +416,15 @@ theorem inv_call {s : TS} (h : Inv s) (k : Nat) (c : CallKind) : Inv (step s (.c
       · rw [upd_other _ _ e] at hq; exact h.quietDead j hq t hl
     · intro j hq
       change (upd s.xs k _ j).quiet = true at hq
-      show (upd s.xs k _ j).removed = true ∨ (upd s.xs k _ j).st = .aborted ∨ (upd s.xs k _ j).st = .paused
+      show (upd s.xs k _ j).removed = true ∨ (upd s.xs k _ j).st = .aborted ∨ (upd s.xs k _ j).st = .paused ∨ (upd s.xs k _ j).st = .failed
       by_cases e : j = k
       · subst e
         rw [upd_same] at hq ⊢
-        rcases h.quietSt _ hq with h1 | h1 | h1
+        rcases h.quietSt _ hq with h1 | h1 | h1 | h1
         · rw [hr] at h1; cases h1
         · exact Or.inr (Or.inl h1)
-        · exact Or.inr (Or.inr h1)
+        · exact Or.inr (Or.inr (Or.inl h1))
+        · exact Or.inr (Or.inr (Or.inr h1))
       · rw [upd_other _ _ e] at hq ⊢; exact h.quietSt j hq
   · exact h
 
@@ -453,14 +458,14 @@ theorem inv_callResume {s : TS} (h : Inv s) (k : Nat) : Inv (step s (.callResume
         · rw [upd_other _ _ e] at hq; exact h.quietDead j hq t hl
       · intro j hq
         change (upd s.xs k _ j).quiet = true at hq
-        show (upd s.xs k _ j).removed = true ∨ (upd s.xs k _ j).st = .aborted ∨ (upd s.xs k _ j).st = .paused
+        show (upd s.xs k _ j).removed = true ∨ (upd s.xs k _ j).st = .aborted ∨ (upd s.xs k _ j).st = .paused ∨ (upd s.xs k _ j).st = .failed
         by_cases e : j = k
         · subst e
           rw [upd_same]
           cases hr : (s.xs j).removed
           · simp only [Bool.false_or, if_false, Bool.false_eq_true]
             by_cases hp : c = .pause
-            · exact Or.inr (Or.inr (by simp [hp]))
+            · exact Or.inr (Or.inr (Or.inl (by simp [hp])))
             · exact Or.inr (Or.inl (by simp [hp]))
           · exact Or.inl (by simp [hr])
         · rw [upd_other _ _ e] at hq ⊢; exact h.quietSt j hq
@@ -495,7 +500,7 @@ theorem inv_requeue {s : TS} (h : Inv s) (k : Nat) : Inv (step s (.requeue k)) :
       · rw [upd_other _ _ e] at hq; exact h.quietDead j hq t hl
     · intro j hq
       change (upd s.xs k _ j).quiet = true at hq
-      show (upd s.xs k _ j).removed = true ∨ (upd s.xs k _ j).st = .aborted ∨ (upd s.xs k _ j).st = .paused
+      show (upd s.xs k _ j).removed = true ∨ (upd s.xs k _ j).st = .aborted ∨ (upd s.xs k _ j).st = .paused ∨ (upd s.xs k _ j).st = .failed
       by_cases e : j = k
       · subst e; rw [upd_same] at hq; cases hq
       · rw [upd_other _ _ e] at hq ⊢; exact h.quietSt j hq
@@ -523,9 +528,42 @@ theorem inv_add {s : TS} (h : Inv s) (x : XT) (hx : x.rqSlot = none ∧ x.ttSlot
     · rw [upd_other _ _ e] at hq; exact h.quietDead j hq t hl
   · intro j hq
     change (upd s.xs s.nx x j).quiet = true at hq
-    show (upd s.xs s.nx x j).removed = true ∨ (upd s.xs s.nx x j).st = .aborted ∨ (upd s.xs s.nx x j).st = .paused
+    show (upd s.xs s.nx x j).removed = true ∨ (upd s.xs s.nx x j).st = .aborted ∨ (upd s.xs s.nx x j).st = .paused ∨ (upd s.xs s.nx x j).st = .failed
     by_cases e : j = s.nx
     · subst e; rw [upd_same, hx.2.2.2] at hq; cases hq
+    · rw [upd_other _ _ e] at hq ⊢; exact h.quietSt j hq
+
+/-- transfer `k` gets new state / flags, keeps its slots, is not locked and not quiet afterwards -/
+theorem inv_reset {s : TS} (h : Inv s) (k : Nat) (x' : XT) (h1 : x'.rqSlot = (s.xs k).rqSlot)
+    (h2 : x'.ttSlot = (s.xs k).ttSlot) (h3 : x'.locked = none) (h4 : x'.quiet = false) :
+    Inv { s with xs := upd s.xs k x' } := by
+  constructor
+  · exact h.fresh
+  · exact h.bound
+  · intro t hl
+    show (upd s.xs k x' (s.tasks t).xfer).slotOf (s.tasks t).kind = some t
+    by_cases e : (s.tasks t).xfer = k
+    · rw [e, upd_same]
+      have := h.single t hl
+      rw [e] at this
+      cases hk : (s.tasks t).kind <;> simp only [XT.slotOf, hk, h1, h2] at this ⊢ <;> exact this
+    · rw [upd_other _ _ e]; exact h.single t hl
+  · intro j hj t hl hxf
+    show t ∈ (upd s.xs k x' j).waitFor
+    change (upd s.xs k x' j).locked ≠ none at hj
+    by_cases e : j = k
+    · subst e; rw [upd_same] at hj; exact absurd h3 hj
+    · rw [upd_other _ _ e] at hj ⊢; exact h.waits j hj t hl hxf
+  · intro j hq t hl
+    change (upd s.xs k x' j).quiet = true at hq
+    by_cases e : j = k
+    · subst e; rw [upd_same, h4] at hq; cases hq
+    · rw [upd_other _ _ e] at hq; exact h.quietDead j hq t hl
+  · intro j hq
+    change (upd s.xs k x' j).quiet = true at hq
+    show (upd s.xs k x' j).removed = true ∨ (upd s.xs k x' j).st = .aborted ∨ (upd s.xs k x' j).st = .paused ∨ (upd s.xs k x' j).st = .failed
+    by_cases e : j = k
+    · subst e; rw [upd_same, h4] at hq; cases hq
     · rw [upd_other _ _ e] at hq ⊢; exact h.quietSt j hq
 
 theorem inv_peerRequest {s : TS} (h : Inv s) (k : Nat) : Inv (step s (.peerRequest k)) := by
@@ -533,7 +571,58 @@ theorem inv_peerRequest {s : TS} (h : Inv s) (k : Nat) : Inv (step s (.peerReque
   split
   · rename_i hc
     obtain ⟨hk, _, hr, hl, hs, hf⟩ := hc
-    exact inv_spawn h hk (by simpa [XT.slotOf] using hf) hl (not_quiet_of_spawnable h hr hs)
+    split
+    · -- FAILED: re-queued by the peer first
+      have h1 := inv_reset h k { s.xs k with st := .queued, rq := true, quiet := false } rfl rfl hl rfl
+      refine inv_spawn h1 hk ?_ ?_ ?_
+      · show TS.slotFree _ ((upd s.xs k _ k).slotOf .initDownload) = true
+        rw [upd_same]
+        simpa [XT.slotOf, TS.slotFree] using hf
+      · show (upd s.xs k _ k).locked = none
+        rw [upd_same]; exact hl
+      · show (upd s.xs k _ k).quiet = false
+        rw [upd_same]
+    · rename_i hnf
+      have hs' : (s.xs k).st = .queued ∨ (s.xs k).st = .incomplete := by
+        rcases hs with h1 | h1 | h1
+        · exact Or.inl h1
+        · exact Or.inr h1
+        · exact absurd h1 hnf
+      exact inv_spawn h hk (by simpa [XT.slotOf] using hf) hl (not_quiet_of_spawnable h hr hs')
+  · exact h
+
+theorem inv_peerFail {s : TS} (h : Inv s) (k : Nat) : Inv (step s (.peerFail k)) := by
+  simp only [step]
+  split
+  · rename_i hc
+    constructor
+    · exact h.fresh
+    · exact h.bound
+    · intro t hl
+      show (upd s.xs k _ (s.tasks t).xfer).slotOf (s.tasks t).kind = some t
+      by_cases e : (s.tasks t).xfer = k
+      · rw [e, upd_same]
+        have := h.single t hl
+        rw [e] at this
+        cases hk : (s.tasks t).kind <;> simp only [XT.slotOf, hk] at this ⊢ <;> exact this
+      · rw [upd_other _ _ e]; exact h.single t hl
+    · intro j hj t hl hxf
+      show t ∈ (upd s.xs k _ j).waitFor
+      change (upd s.xs k _ j).locked ≠ none at hj
+      by_cases e : j = k
+      · subst e; rw [upd_same] at hj; exact absurd hc.2.2.2.1 hj
+      · rw [upd_other _ _ e] at hj ⊢; exact h.waits j hj t hl hxf
+    · intro j hq t hl
+      change (upd s.xs k _ j).quiet = true at hq
+      by_cases e : j = k
+      · subst e; rw [upd_same] at hq; exact h.quietDead _ hq t hl
+      · rw [upd_other _ _ e] at hq; exact h.quietDead j hq t hl
+    · intro j hq
+      change (upd s.xs k _ j).quiet = true at hq
+      show (upd s.xs k _ j).removed = true ∨ (upd s.xs k _ j).st = .aborted ∨ (upd s.xs k _ j).st = .paused ∨ (upd s.xs k _ j).st = .failed
+      by_cases e : j = k
+      · subst e; rw [upd_same]; exact Or.inr (Or.inr (Or.inr rfl))
+      · rw [upd_other _ _ e] at hq ⊢; exact h.quietSt j hq
   · exact h
 
 theorem inv_step {s : TS} (h : Inv s) (op : Op) : Inv (step s op) := by
@@ -548,6 +637,7 @@ theorem inv_step {s : TS} (h : Inv s) (op : Op) : Inv (step s op) := by
   | call k c => exact inv_call h k c
   | callResume k => exact inv_callResume h k
   | requeue k => exact inv_requeue h k
+  | peerFail k => exact inv_peerFail h k
 
 theorem inv_foldl {s : TS} (h : Inv s) (ops : List Op) : Inv (ops.foldl step s) := by
   induction ops generalizing s with
@@ -578,8 +668,9 @@ theorem trySpawn_quiet {s : TS} (h : Inv s) {k : Nat} (hq : (s.xs k).quiet = tru
         split at hsp <;> split at hsp <;> try cases hsp
         all_goals
           rename_i hd
-          rcases hs with h1 | h1 | h1
+          rcases hs with h1 | h1 | h1 | h1
           · rw [hc.2.1] at h1; cases h1
+          · simp [h1] at hd
           · simp [h1] at hd
           · simp [h1] at hd
       · cases hsp
@@ -621,7 +712,13 @@ theorem quiet_step {s : TS} (h : Inv s) {k : Nat} (hk : k < s.nx) (hq : (s.xs k)
       exact fun h => this h.symm
     simp only [step]
     split
-    · exact ⟨by rw [show (s.spawn j .initDownload).xs k = s.xs k from upd_other _ _ e], hk⟩
+    · split
+      · refine ⟨?_, hk⟩
+        have h1 : ∀ (s1 : TS), (s1.spawn j .initDownload).xs k = s1.xs k := fun s1 => upd_other _ _ e
+        rw [h1]
+        show obs (upd s.xs j _ k) = obs (s.xs k)
+        rw [upd_other _ _ e]
+      · exact ⟨by rw [show (s.spawn j .initDownload).xs k = s.xs k from upd_other _ _ e], hk⟩
     · exact ⟨rfl, hk⟩
   | taskStart t =>
     simp only [step]
@@ -672,6 +769,14 @@ theorem quiet_step {s : TS} (h : Inv s) {k : Nat} (hk : k < s.nx) (hq : (s.xs k)
       · exact ⟨rfl, hk⟩
     · exact ⟨rfl, hk⟩
   | requeue j =>
+    have e : k ≠ j := by
+      have : ¬ j = k := by simpa [Op.addresses] using hn
+      exact fun h => this h.symm
+    simp only [step]
+    split
+    · exact ⟨by simp only []; rw [upd_other _ _ e], hk⟩
+    · exact ⟨rfl, hk⟩
+  | peerFail j =>
     have e : k ≠ j := by
       have : ¬ j = k := by simpa [Op.addresses] using hn
       exact fun h => this h.symm
